@@ -26,7 +26,7 @@ def cells(tier, seed):
     for diag in (False, True):
         for R in Rs:
             for D in Ds:
-                for corr in ("moderate", "strong"):
+                for corr in ("moderate", "strong") + (("extreme",) if D > 1 else ()):
                     out.append({"diag": diag, "R": R, "D": D, "corr": corr, "tier": tier,
                                 "group": [R, D], "cost": 1.0})
     return out
@@ -37,7 +37,9 @@ def run_cell(cell, rec, seed):
 
     diag, R, D, corr, tier = (cell[k] for k in ("diag", "R", "D", "corr", "tier"))
     rng = gen.rng_for(seed, "C19", diag, R, D, corr)
-    kappa = 10.0 if corr == "moderate" else 1e4  # correlations up to ~0.9998
+    # correlations up to ~0.9998 (strong) and 1 - 1e-6 (extreme: the property quantifies over
+    # arbitrary covariances, strong correlations included)
+    kappa = {"moderate": 10.0, "strong": 1e4, "extreme": 1e6}[corr]
     p, t = build.mk_pdf(rng, R, D, kappa=kappa, diag=diag)
     info = {"diag": diag, "R": R, "D": D, "kappa": kappa}
     rec.cell([diag, R, D, corr], R > 1 or D > 1)
@@ -72,6 +74,11 @@ def run_cell(cell, rec, seed):
         rec.close("A A' = Sigma", A @ A.T, t.Sigma[r], ns=np.max(np.abs(t.Sigma[r])),
                   tol_rel=1e-8 * 10, detail=dict(info, component=r),
                   mech="sample-wrong-covariance-factor")
+        # whitened: A' Sigma^-1 A = I judges every direction on its own scale (an entry-wise
+        # comparison is blind to the weakest direction of a strongly correlated covariance)
+        Wd = A.T @ np.linalg.solve(t.Sigma[r], A)
+        rec.close("A' Sigma^-1 A = I", Wd, np.eye(D), ns=max(1.0, kappa / 1e4) * 10.0,
+                  detail=dict(info, component=r), mech="sample-wrong-covariance-factor-whitened")
         # pairing: the stream of another component must not explain component r
         if R > 1:
             o = (r + 1) % R
